@@ -86,7 +86,7 @@ class Planter:
         return f"~S{self.n:02d}~"
 
 
-KEYS = ["a", "b", "items", "user", "email", "n", "attrs", "token", "x", "é"]
+KEYS = ["a", "b", "items", "user", "email", "n", "attrs", "token", "x", "é", "x-api-key", "__Host-sid", "a b", "k:1", "u@h", "p/q", "0", "-1"]
 TEXTS = ["", "x", "bob", "пароль", "日本語", "é" * 3, "a b", "10.0.0.1", "\U0001f511 key", "q\"uote", "tab\t"]
 
 
@@ -333,6 +333,7 @@ def impl_logger(c: dict) -> dict:
         with audit_capture() as cap:
             lg.log(payload)
         msgs = [r.getMessage() for r in cap.records if r.levelno == lg.level]
+        others = [r.getMessage() for r in cap.records if r.levelno != lg.level]
         # the same record through ONE long-lived logger per configuration: a logger carries no state from one record to the next
         try:
             key = json.dumps(logger_kwargs(cfg), sort_keys=True, default=repr)
@@ -353,7 +354,7 @@ def impl_logger(c: dict) -> dict:
         return {"raised": type(e).__name__, "caller_after": payload}
     finally:
         dl.random = saved_random
-    res: dict[str, Any] = {"caller_after": payload, "n_messages": len(msgs), "draws": len(calls)}
+    res: dict[str, Any] = {"caller_after": payload, "n_messages": len(msgs), "draws": len(calls), "other_level": others}
     if not msgs:
         res["dropped"] = True
         return res
@@ -501,6 +502,11 @@ def judge(c: dict, out: dict, ans: Any) -> tuple[bool, list[str], str, bool]:
     for name, ok in sp.items():
         if not ok:
             fails.append(f"spec {name} false on the implementation's record")
+    if ans.get("wf"):
+        # a record at any other level (a debug trace, a warning) goes to the same sink: it must not carry a covered secret either
+        for s in set(ans.get("covered") or []) | set(c.get("py_covered", [])):
+            if any(s in m for m in out.get("other_level", [])):
+                fails.append(f"secret {s} present in a record emitted at another level")
     if out.get("dropped"):
         dis = not m.get("dropped")
         return dis, fails, "logger/dropped/" + ("rate<=0" if ans["eff_rate"] != "nan" and int(ans["eff_rate"]) <= 0 else "draw"), \
